@@ -107,8 +107,10 @@ def run_case(case):
     thermal_derived = CROP_INFO[spec["crop"]["name"]]["CalendarType"] == 2 and not spec["crop"].get("harvest_date")
 
     def V(sig, msg):
-        if swg and sig.startswith("C11:differs"):
-            sig += swg   # the calendar-to-thermal conversion is written onto the user's Crop (see known findings)
+        if swg and (sig.startswith("C11:differs") or (sig.startswith("C11:raises-on-reuse:AssertionError") and any("@window" in t for t in state["trace"]))):
+            # the calendar-to-thermal conversion is written onto the user's Crop (see known findings); with another window's thermal
+            # stage lengths on it the crop may also fail the documented degree-day check of this window
+            sig += swg
         elif thermal_derived and sig.startswith("C11:differs") and any("@window" in t for t in state["trace"]):
             # thermal-time crop, harvest date derived by the model, and an earlier use of the same Crop for another window
             sig += ":thermal-crop-derived-harvest-date-from-other-window"
